@@ -64,9 +64,9 @@ type tmGhostCS struct {
 
 // tmUpdate is one client update attempt.
 type tmUpdate struct {
-	Trusted   uint64 // trusted revision height (revision 1)
+	Trusted   clienttypes.Height // trusted height (revision, height)
 	Height    int64
-	OtherRev  bool
+	OtherRev  bool    // the header claims the revision after the trusted one
 	Vals      []tmVal // header's validator set
 	NextVals  []tmVal
 	Signers   uint32 // bit i = validator i of the SORTED set signs
@@ -77,15 +77,18 @@ type tmUpdate struct {
 	TVals     []tmVal
 	Label     string
 	appHashID string
+	// Upgrade: not a header update but a governance upgrade of the client to the next revision (history only)
+	Upgrade bool
 }
 
 func (u tmUpdate) header() *ibctm.Header {
 	set, keys := tmSet(u.Vals)
 	next, _ := tmSet(u.NextVals)
-	chainID := tmChainID
+	rev := u.Trusted.RevisionNumber
 	if u.OtherRev {
-		chainID = tmOtherRevID
+		rev++
 	}
+	chainID := fmt.Sprintf("tmchain-%d", rev)
 	ah := sha256.Sum256([]byte(fmt.Sprintf("app-%d-%s", u.Height, u.appHashID)))
 	hdr := cmttypes.Header{
 		Version: cmtprotoversion.Consensus{Block: cmtversion.BlockProtocol, App: 2},
@@ -115,14 +118,23 @@ func (u tmUpdate) header() *ibctm.Header {
 		keys = forged
 	}
 	tv, _ := tmSet(u.TVals)
-	return world.SignHeader(hdr, set, keys, signers, tv, clienttypes.NewHeight(1, u.Trusted))
+	return world.SignHeader(hdr, set, keys, signers, tv, u.Trusted)
 }
 
 // tmState is a client state reached by a history of accepted updates.
 type tmState struct {
 	History []tmUpdate
-	CS      map[uint64]tmGhostCS // ghost: stored consensus states
-	Latest  uint64
+	CS      map[clienttypes.Height]tmGhostCS // ghost: stored consensus states
+	Latest  clienttypes.Height
+}
+
+// headerHeight is the (revision, height) a header update lands on.
+func (u tmUpdate) headerHeight() clienttypes.Height {
+	rev := u.Trusted.RevisionNumber
+	if u.OtherRev {
+		rev++
+	}
+	return clienttypes.NewHeight(rev, uint64(u.Height))
 }
 
 type tmScenario struct {
@@ -152,6 +164,17 @@ func (s tmScenario) build(c *world.Chain, hist []tmUpdate) (sdk.Context, error) 
 		return ctx, err
 	}
 	for _, u := range hist {
+		if u.Upgrade {
+			next, _ := tmSet(u.NextVals)
+			h := u.headerHeight()
+			ucs := ibctm.NewClientState(fmt.Sprintf("tmchain-%d", h.RevisionNumber), ibctm.Fraction{Numerator: s.TrustNum, Denominator: s.TrustDen}, tmPeriod, 2*tmPeriod, tmDrift,
+				h, commitmenttypes.GetSDKSpecs(), commitmenttypes.MerklePrefix{KeyPrefix: []byte("tibc")}, 0)
+			ucons := &ibctm.ConsensusState{Timestamp: u.Time, Root: commitmenttypes.NewMerkleRoot([]byte("upgraded")), NextValidatorsHash: next.Hash()}
+			if err := ck.UpgradeClient(ctx.WithBlockTime(u.Now), tmClientName, ucs, ucons); err != nil {
+				return ctx, fmt.Errorf("history upgrade failed: %w", err)
+			}
+			continue
+		}
 		if err := ck.UpdateClient(ctx.WithBlockTime(u.Now), tmClientName, u.header()); err != nil {
 			return ctx, fmt.Errorf("history update %s failed: %w", u.Label, err)
 		}
@@ -206,7 +229,7 @@ func (s tmScenario) tmExpect(st tmState, u tmUpdate) (bool, bool) {
 	if u.OtherRev {
 		return false, false
 	}
-	if uint64(u.Height) <= u.Trusted {
+	if uint64(u.Height) <= u.Trusted.RevisionHeight {
 		return false, false
 	}
 	if u.WrongTV || !sameVals(u.TVals, trusted.Next) {
@@ -235,7 +258,7 @@ func (s tmScenario) tmExpect(st tmState, u tmUpdate) (bool, bool) {
 	if 3*own <= 2*power(u.Vals) {
 		return false, false
 	}
-	if uint64(u.Height) == u.Trusted+1 {
+	if uint64(u.Height) == u.Trusted.RevisionHeight+1 {
 		if !sameVals(u.Vals, trusted.Next) {
 			return false, false
 		}
@@ -251,12 +274,12 @@ func (s tmScenario) tmExpect(st tmState, u tmUpdate) (bool, bool) {
 // tmProbeMenu is the judged input alphabet in state st.
 func (s tmScenario) tmProbeMenu(st tmState, tier string) []tmUpdate {
 	var out []tmUpdate
-	var heights []uint64
+	var heights []clienttypes.Height
 	for h := range st.CS {
 		heights = append(heights, h)
 	}
-	sort.Slice(heights, func(i, j int) bool { return heights[i] < heights[j] })
-	heights = append(heights, 7) // a height without consensus state
+	sort.Slice(heights, func(i, j int) bool { return heights[i].LT(heights[j]) })
+	heights = append(heights, clienttypes.NewHeight(1, 7)) // a height without consensus state
 	outsider := func(i int, p int64) tmVal { return tmVal{tmKey(50 + i), p} }
 	for _, t := range heights {
 		trusted := st.CS[t]
@@ -286,7 +309,7 @@ func (s tmScenario) tmProbeMenu(st tmState, tier string) []tmUpdate {
 			nows = []time.Time{comfy, tTime.Add(tmPeriod + time.Nanosecond)}
 		}
 		for _, dh := range []int64{1, 2, 0, -1} {
-			H := int64(t) + dh
+			H := int64(t.RevisionHeight) + dh
 			if H < 1 {
 				continue
 			}
@@ -309,8 +332,15 @@ func (s tmScenario) tmProbeMenu(st tmState, tier string) []tmUpdate {
 									}
 									u := tmUpdate{Trusted: t, Height: H, OtherRev: other, Vals: vals, NextVals: vals, Signers: mask,
 										Time: ht, Now: now, WrongTV: wrong, TVals: tv, appHashID: "probe",
-										Label: fmt.Sprintf("trusted=%d height=%d otherRev=%v set=%s signers=%b time#%d now=%s wrongTrusted=%v", t, H, other, rn, mask, ti, now.Sub(tTime), wrong)}
+										Label: fmt.Sprintf("trusted=%s height=%d otherRev=%v set=%s signers=%b time#%d now=%s wrongTrusted=%v", t, H, other, rn, mask, ti, now.Sub(tTime), wrong)}
 									out = append(out, u)
+									if rn == "same" && !wrong && ti == 0 {
+										// the header announces a rotated next validator set
+										r := u
+										r.NextVals = rels["one-replaced"]
+										r.Label += " next-set-rotated"
+										out = append(out, r)
+									}
 								}
 							}
 						}
@@ -318,7 +348,7 @@ func (s tmScenario) tmProbeMenu(st tmState, tier string) []tmUpdate {
 					// forged signatures, all "signing"
 					out = append(out, tmUpdate{Trusted: t, Height: H, OtherRev: other, Vals: vals, NextVals: vals, Signers: 1<<uint(n) - 1, Forge: true,
 						Time: tTime.Add(time.Nanosecond), Now: comfy, TVals: nextSet, appHashID: "probe",
-						Label: fmt.Sprintf("trusted=%d height=%d otherRev=%v set=%s forged-signatures", t, H, other, rn)})
+						Label: fmt.Sprintf("trusted=%s height=%d otherRev=%v set=%s forged-signatures", t, H, other, rn)})
 				}
 			}
 		}
@@ -332,29 +362,44 @@ func (s tmScenario) tmHistoryMenu(st tmState) []tmUpdate {
 	latest := st.CS[st.Latest]
 	full := func(vs []tmVal) uint32 { return 1<<uint(len(vs)) - 1 }
 	now := latest.Time.Add(60 * time.Second)
-	mk := func(label string, trusted uint64, h int64, vals []tmVal, at time.Time, now time.Time) tmUpdate {
+	mk := func(label string, trusted clienttypes.Height, h int64, vals []tmVal, at time.Time, now time.Time) tmUpdate {
 		return tmUpdate{Trusted: trusted, Height: h, Vals: vals, NextVals: vals, Signers: full(vals), Time: at, Now: now,
 			TVals: st.CS[trusted].Next, Label: label, appHashID: label}
 	}
-	out = append(out, mk("adjacent", st.Latest, int64(st.Latest)+1, latest.Next, latest.Time.Add(30*time.Second), now))
-	out = append(out, mk("skip+3", st.Latest, int64(st.Latest)+3, latest.Next, latest.Time.Add(40*time.Second), now))
+	lh := int64(st.Latest.RevisionHeight)
+	out = append(out, mk("adjacent", st.Latest, lh+1, latest.Next, latest.Time.Add(30*time.Second), now))
+	out = append(out, mk("skip+3", st.Latest, lh+3, latest.Next, latest.Time.Add(40*time.Second), now))
+	if len(latest.Next) >= 2 {
+		// the validator set rotates at this block: header signed by the current set, announcing another next set
+		rot := mk("adjacent-rotating", st.Latest, lh+1, latest.Next, latest.Time.Add(32*time.Second), now)
+		nv := append([]tmVal{}, latest.Next...)
+		nv[0] = tmVal{tmKey(70 + len(st.History)), nv[0].power}
+		rot.NextVals = nv
+		out = append(out, rot)
+	}
+	if st.Latest.RevisionNumber == 1 {
+		// governance upgrade to revision 2 (new chain id, heights restart)
+		up := tmUpdate{Upgrade: true, OtherRev: true, Trusted: st.Latest, Height: 5, NextVals: latest.Next, Time: latest.Time.Add(50 * time.Second), Now: now,
+			Label: "upgrade-to-revision-2"}
+		out = append(out, up)
+	}
 	if len(latest.Next) >= 3 {
 		rep := append([]tmVal{}, latest.Next...)
 		rep[len(rep)-1] = tmVal{tmKey(60 + len(st.History)), rep[len(rep)-1].power}
-		out = append(out, mk("skip+2-one-replaced", st.Latest, int64(st.Latest)+2, rep, latest.Time.Add(35*time.Second), now))
+		out = append(out, mk("skip+2-one-replaced", st.Latest, lh+2, rep, latest.Time.Add(35*time.Second), now))
 	}
 	// an update into the past: from the oldest stored state to a height below the latest
-	var hs []uint64
+	var hs []clienttypes.Height
 	for h := range st.CS {
 		hs = append(hs, h)
 	}
-	sort.Slice(hs, func(i, j int) bool { return hs[i] < hs[j] })
-	if len(hs) >= 2 && hs[0]+1 < hs[1] {
+	sort.Slice(hs, func(i, j int) bool { return hs[i].LT(hs[j]) })
+	if len(hs) >= 2 && (hs[0].RevisionNumber != hs[1].RevisionNumber || hs[0].RevisionHeight+1 < hs[1].RevisionHeight) {
 		old := st.CS[hs[0]]
-		out = append(out, mk("past-update", hs[0], int64(hs[0])+1, old.Next, old.Time.Add(time.Second), now))
+		out = append(out, mk("past-update", hs[0], int64(hs[0].RevisionHeight)+1, old.Next, old.Time.Add(time.Second), now))
 	}
 	// a late update that makes the oldest state expire (pruning path)
-	out = append(out, mk("late-adjacent", st.Latest, int64(st.Latest)+1, latest.Next, latest.Time.Add(tmPeriod-50*time.Second), latest.Time.Add(tmPeriod-40*time.Second)))
+	out = append(out, mk("late-adjacent", st.Latest, lh+1, latest.Next, latest.Time.Add(tmPeriod-50*time.Second), latest.Time.Add(tmPeriod-40*time.Second)))
 	return out
 }
 
@@ -408,7 +453,8 @@ func CheckC07(tier string) int {
 		w := base
 		w.Mount(init)
 		c := w.C(A)
-		st0 := tmState{CS: map[uint64]tmGhostCS{10: {Time: tmT0, Next: sc.initial()}}, Latest: 10}
+		h0 := clienttypes.NewHeight(1, 10)
+		st0 := tmState{CS: map[clienttypes.Height]tmGhostCS{h0: {Time: tmT0, Next: sc.initial()}}, Latest: h0}
 		frontier := []tmState{st0}
 		seen := map[string]bool{}
 		for d := 0; d <= depth; d++ {
@@ -429,6 +475,16 @@ func CheckC07(tier string) int {
 					continue
 				}
 				for _, u := range sc.tmHistoryMenu(st) {
+					if u.Upgrade {
+						ns := tmState{History: append(append([]tmUpdate{}, st.History...), u), CS: map[clienttypes.Height]tmGhostCS{}, Latest: u.headerHeight()}
+						for h, v := range st.CS {
+							ns.CS[h] = v
+						}
+						ns.CS[u.headerHeight()] = tmGhostCS{Time: u.Time, Next: u.NextVals}
+						transitions++
+						next = append(next, ns)
+						continue
+					}
 					want, dc := sc.tmExpect(st, u)
 					cctx, _ := ctx.CacheContext()
 					err := c.App.TIBCKeeper.ClientKeeper.UpdateClient(cctx.WithBlockTime(u.Now), tmClientName, u.header())
@@ -443,20 +499,20 @@ func CheckC07(tier string) int {
 					if err != nil {
 						continue
 					}
-					ns := tmState{History: append(append([]tmUpdate{}, st.History...), u), CS: map[uint64]tmGhostCS{}, Latest: st.Latest}
+					ns := tmState{History: append(append([]tmUpdate{}, st.History...), u), CS: map[clienttypes.Height]tmGhostCS{}, Latest: st.Latest}
 					for h, v := range st.CS {
 						ns.CS[h] = v
 					}
-					ns.CS[uint64(u.Height)] = tmGhostCS{Time: u.Time, Next: u.NextVals}
-					if uint64(u.Height) > ns.Latest {
-						ns.Latest = uint64(u.Height)
+					ns.CS[u.headerHeight()] = tmGhostCS{Time: u.Time, Next: u.NextVals}
+					if u.headerHeight().GT(ns.Latest) {
+						ns.Latest = u.headerHeight()
 					}
 					// pruning: a consensus state may disappear only if it had expired at the update's block time
 					for h, v := range ns.CS {
-						_, found := c.App.TIBCKeeper.ClientKeeper.GetClientConsensusState(cctx, tmClientName, clienttypes.NewHeight(1, h))
+						_, found := c.App.TIBCKeeper.ClientKeeper.GetClientConsensusState(cctx, tmClientName, h)
 						if !found {
 							if v.Time.Add(tmPeriod).After(u.Now) {
-								addF(sc, st, "unexpired-consensus-state-removed", fmt.Sprintf("height %d", h), u.Label)
+								addF(sc, st, "unexpired-consensus-state-removed", fmt.Sprintf("height %s", h), u.Label)
 							}
 							delete(ns.CS, h)
 						}
@@ -528,7 +584,7 @@ func CheckC07(tier string) int {
 						continue
 					}
 					// accepted: stored consensus state is the header's; latest never decreases
-					csI, found := ck.GetClientConsensusState(cctx, tmClientName, clienttypes.NewHeight(1, uint64(u.Height)))
+					csI, found := ck.GetClientConsensusState(cctx, tmClientName, u.headerHeight())
 					if !found {
 						addF(j.sc, j.st, "accepted-header-not-stored", u.Label, u.Label)
 						continue
@@ -540,11 +596,11 @@ func CheckC07(tier string) int {
 					}
 					cl, _ := ck.GetClientState(cctx, tmClientName)
 					wantLatest := j.st.Latest
-					if uint64(u.Height) > wantLatest {
-						wantLatest = uint64(u.Height)
+					if u.headerHeight().GT(wantLatest) {
+						wantLatest = u.headerHeight()
 					}
-					if cl.GetLatestHeight().GetRevisionHeight() != wantLatest {
-						addF(j.sc, j.st, "latest-height-wrong-after-update", fmt.Sprintf("%s: latest=%d want %d", u.Label, cl.GetLatestHeight().GetRevisionHeight(), wantLatest), u.Label)
+					if !cl.GetLatestHeight().EQ(wantLatest) {
+						addF(j.sc, j.st, "latest-height-wrong-after-update", fmt.Sprintf("%s: latest=%s want %s", u.Label, cl.GetLatestHeight(), wantLatest), u.Label)
 					}
 				}
 				mu.Lock()
